@@ -42,6 +42,8 @@ prop("C16", [
 POOL_B = dict(engine="sql", rows_quick=2, rows_thorough=3)
 prop("C01", [
     dict(engine="verus", unit="pool"),
+    # whose lease it is: the identity the handlers key the lease on (real DhcpOptions::get_clientid / Dhcp::get_client_id)
+    dict(engine="verus", unit="dhcpgetters", fns=["DhcpOptions::get_clientid", "Dhcp::get_client_id", "parse_into_bytes"]),
     # every SQL stub contract the C01 proof rests on: in-use test, the client's own rows (via the C09 checks), and the upsert
     # (allocate_address/C10: the row written names the requesting client with the reply's window; C13: nothing else changes)
     # ... "and a server restart": what was recorded is what the restarted server finds (durability of every recorded lease)
